@@ -227,7 +227,11 @@ def save_text(a, style, via, tmpdir=None):
         import tempfile
         d = tempfile.mkdtemp(prefix="vmon-c13-")
         try:
-            p = os.path.join(d, "out.lmpdat")
+            # every third file gets a name whose extension says nothing (or something else); the format is then named explicitly
+            name = ["out.lmpdat", "out.lmpdat", "out.data", "out.lmpdat.tmp", "out.txt", "out.cif"][len(a) % 6]
+            p = os.path.join(d, name)
+            if not name.endswith(".lmpdat"):
+                kw = dict(kw, filetype="lmpdat")
             a.save(p if len(a) % 2 else pathlib.Path(p), **kw)
             with open(p) as fh:
                 return fh.read()
@@ -245,7 +249,13 @@ def load_text(text, style, via, case_id):
     if via == "save_load_fileobj":
         return Atoms.load(io.StringIO(text), filetype="lmpdat", atom_format=style)
     from vmon.oracle.util import worker_dir
-    p = os.path.join(worker_dir(), "x.lmpdat")        # the same path from case to case, each time with other content
+    name = ["x.lmpdat", "x.data", "x.lmpdat", "x.cml"][case_id % 4 if case_id % 8 >= 4 else 0]
+    p = os.path.join(worker_dir(), name)        # the same path from case to case, each time with other content
+    if name != "x.lmpdat":
+        with open(p, "w") as f:
+            f.write(text)
+        import pathlib
+        return Atoms.load(pathlib.Path(p) if case_id % 2 else p, filetype="lmpdat", atom_format=style)
     from vmon.oracle.util import prime_path
     prime_path(p)
     with open(p, "w") as f:
